@@ -65,6 +65,7 @@ def errStr : Option Err → String
   | some .pskHrr => "psk-hrr"
   | some .emsAbort => "eof"
   | some .certTime => "certtime"
+  | some .certName => "certname"
   | some .noVersion => "noversion"
 
 def offStr : Decision → String
@@ -178,21 +179,26 @@ structure SeqIn where
   flags : String
   /-- pre-handshake calls: B BuildHandshakeState, R SetClientRandom, S SetSNI (same name), A ALPN edit -/
   ops : List String
+  /-- InsecureServerNameToVerify: none = unset, some 0 = "*", some n = a name -/
+  isn : Option Name
 
 def parseSeqIn (s : String) : Option SeqIn :=
-  let mk (id sn smax ct st h fl : String) (ops : List String) : Option SeqIn := do
+  let mk (id sn smax ct st h fl : String) (ops : List String) (isn : Option Name) : Option SeqIn := do
     let smax ← smax.toNat?
     let ct ← ct.toNat?
     let st ← st.toNat?
-    pure ⟨id, nameOf sn, smax, ct, st, h = "1", fl, ops⟩
+    pure ⟨id, nameOf sn, smax, ct, st, h = "1", fl, ops, isn⟩
+  let opsOf (ops : String) : List String := if ops = "-" then [] else ops.splitOn "."
+  let isnOf (x : String) : Option Name := if x = "-" then none else if x = "*" then some 0 else some (nameOf x)
   match s.splitOn "/" with
-  | [id, sn, smax, ct, st, h, fl] => mk id sn smax ct st h fl []
-  | [id, sn, smax, ct, st, h, fl, ops] => mk id sn smax ct st h fl (if ops = "-" then [] else ops.splitOn ".")
+  | [id, sn, smax, ct, st, h, fl] => mk id sn smax ct st h fl [] none
+  | [id, sn, smax, ct, st, h, fl, ops] => mk id sn smax ct st h fl (opsOf ops) none
+  | [id, sn, smax, ct, st, h, fl, ops, isn] => mk id sn smax ct st h fl (opsOf ops) (isnOf isn)
   | _ => none
 
 /-- the pre-handshake calls as model operations (an edit changes the bytes before the binders block). -/
 def preOpsOf (ops : List String) : List PreOp :=
-  ops.map fun o => if o = "B" then PreOp.build else PreOp.edit (fun h => 0 :: h)
+  ops.map fun o => if o = "B" then PreOp.build else if o = "W" then PreOp.marshalOnly else PreOp.edit (fun h => 0 :: h)
 
 def peekStr (s : Option Session) : String :=
   match s with
@@ -228,7 +234,7 @@ def seqStep (T : Tables) (na : Nat) (st : SeqState) (x : SeqIn × KV) : SeqState
   match parseHello r with
   | none => { st with diffs := st.diffs ++ [s!"#{st.idx}:unparsable-record"], idx := st.idx + 1 }
   | some h =>
-    let cfg := mkCfg ci.flags ci.sn 0 none (r.getD "sk" "0" = "1")
+    let cfg := mkCfg ci.flags ci.sn 0 ci.isn (r.getD "sk" "0" = "1")
     let key := cacheKey cfg
     let entry := st.cache.get key
     let obsSuite := (hexNat (r.getD "su" "0")).getD 0
@@ -237,7 +243,12 @@ def seqStep (T : Tables) (na : Nat) (st : SeqState) (x : SeqIn × KV) : SeqState
     let srv : Server := { maxVer := if ci.smax = 13 then vTLS13 else vTLS12, now := ci.st, hrr := hrrObs, suite := suite,
                           certNotBefore := kitNotBefore, certNotAfter := na, certNames := [1, 2], newTicket := [], newAgeAdd := 0 }
     let c : ConnIn := { cfg := cfg, hello := h, now := ci.ct, srv := srv }
-    let m := stepConn T st.cache c
+    -- a session-less build that comes before the first full build fails early on a PSK spec without OmitEmptyPsk
+    let wFirst := ((ci.ops.filter fun o => o = "B" ∨ o = "W").head?) = some "W"
+    let m0 := stepConn T st.cache c
+    let m : ConnOut := if wFirst && noSessionBuildFails cfg h then
+        { decision := .none, hrr := false, srvRes := .full, err := some .emptyPsk, resumed := false, ops := [], cache := st.cache }
+      else m0
     let off := r.getD "off" "nohello"
     let cOk := r.getD "c" "?" = "ok"
     let sOk := r.getD "s" "?" = "ok"
@@ -278,7 +289,7 @@ def seqStep (T : Tables) (na : Nat) (st : SeqState) (x : SeqIn × KV) : SeqState
       -- resumption the property promises: same parrot, name, server configuration, within every lifetime
       (match st.prev, st.first with
         | some (pi, pr), some fi =>
-          let same := pi.id = ci.id ∧ pi.sn = ci.sn ∧ pi.smax = ci.smax ∧ pi.flags = ci.flags ∧ pi.hrrAsked = ci.hrrAsked
+          let same := pi.id = ci.id ∧ pi.sn = ci.sn ∧ pi.smax = ci.smax ∧ pi.flags = ci.flags ∧ pi.hrrAsked = ci.hrrAsked ∧ pi.isn = ci.isn
           let prevOk := pr.getD "c" "?" = "ok" ∧ pr.getD "s" "?" = "ok"
           let inLife := pi.ct ≤ ci.ct ∧ pi.st ≤ ci.st ∧ ci.ct ≤ fi.ct + week ∧ ci.st ≤ fi.st + week ∧ fi.ct ≤ ci.ct ∧ fi.st ≤ ci.st ∧
             ci.ct ≤ na ∧ kitNotBefore ≤ ci.ct
@@ -348,8 +359,11 @@ def resumeSeq (c : Case) : Verdict :=
     let golang := ins.any (·.id = "Golang-0")
     let names := (ins.map (·.sn)).eraseDups.length
     let anyOps := ins.any (fun i => !i.ops.isEmpty)
-    let anyEdit := ins.any (fun i => i.ops.any (· ≠ "B"))
-    let tag := s!"n{ins.length},off={if st.nOff = "" then "x" else st.nOff},r{min st.nRes 2}{if st.anyHrr then ",hrr" else ""}{if golang then ",go" else ""}{if st.anyErr then ",err" else ""}{if st.anyDel then ",del" else ""}{if names > 1 then ",names" else ""}{if anyEdit then ",edit" else if anyOps then ",build" else ""}"
+    let anyEdit := ins.any (fun i => i.ops.any (fun o => o ≠ "B" ∧ o ≠ "W"))
+    let anyW := ins.any (fun i => i.ops.contains "W")
+    let anyStar := ins.any (fun i => i.isn = some 0)
+    let anyIsn := ins.any (fun i => i.isn.isSome)
+    let tag := s!"n{ins.length},off={if st.nOff = "" then "x" else st.nOff},r{min st.nRes 2}{if st.anyHrr then ",hrr" else ""}{if golang then ",go" else ""}{if st.anyErr then ",err" else ""}{if st.anyDel then ",del" else ""}{if names > 1 then ",names" else ""}{if anyEdit then ",edit" else if anyOps then ",build" else ""}{if anyW then ",nosess" else ""}{if anyStar then ",star" else if anyIsn then ",isn" else ""}"
     -- a violation other than the known PSK+HRR one is reported first
     let other := st.fails.filter fun f => decide ((f.splitOn "psk-hrr-unsupported").length ≤ 1)
     match other, st.diffs, st.fails with
